@@ -77,6 +77,27 @@ PROPS["C05"] = dict(
     assumptions=COMMON_ASSUME,
 )
 
+PROPS["C01"] = dict(
+    title="TCP tunnel byte-stream fidelity",
+    level="exploration",
+    technique="end-to-end runtime monitor: position-keyed keystream equality at the client and origin sockets of the shipped binary, every listener x connector x io-mode pairing, hostile shapes and back-pressure",
+    text="Starts real proxy chains (C -quic-> A -{direct,http,https,socks5,socks4,socks+tls,quic,loadbalance}-> B -> harness origins) for several ioParams (splice on/off, bufferSize 1..1MiB) and drives tunnels through every listener kind (http, https, socks5, socks5+auth, socks4, socks4a, socks+tls, reverse, CONNECT-over-QUIC) x every connector kind with drawn shapes: sizes 0..multi-MB per direction, who speaks first, early data glued to the handshake, segmented handshakes, write sizes/pauses, slow and stalled readers (back-pressure), IPv4/domain/IPv6 targets, 4..32 tunnels concurrently. Every byte received at either end is compared with the keystream of that connection and direction; a mismatch is classified (truncated, extra, lost, duplicated, foreign connection).",
+    note="trusted: kernel loopback, python asyncio/ssl client and origin; TPROXY listeners are not driven (need netfilter rules)",
+    design_ref="DESIGN.md 3 C01",
+    steps=[e2e("c01")],
+    assumptions=COMMON_ASSUME + ["the harness client and origin are correct senders/receivers of their keystreams"],
+)
+PROPS["C04"] = dict(
+    title="end-of-stream and abort relayed faithfully, same in both I/O modes",
+    level="fault_enumeration",
+    technique="end-to-end close-event scenario grid (FIN/close/RST by either side, offsets, in-flight data) with an absolute oracle on socket events + history states, and a splice-vs-buffered differential of the logical observations",
+    text="Seven close scenarios (client FIN first / origin FIN first / simultaneous / client RST / origin RST / client close with MBs in flight / FIN at offset 0) x listener x connector pairings are run against a splice and a buffered proxy chain; oracle: the peer sees EOF only after all bytes sent before it and within 3 s, the opposite direction still delivers and ends, both sides observe the end after an abort, /api/live no longer lists the tunnel and /api/history shows ClientShutdown/ServerShutdown in the order of the closes and one terminal state; the per-scenario observation vectors of the two I/O modes must be equal.",
+    note="trusted: kernel loopback; 'promptly' restated as 3 s with a 15 s watchdog; python TLS clients cannot half-close so FIN-first-by-client scenarios run on plain listeners only",
+    design_ref="DESIGN.md 3 C04",
+    steps=[e2e("c04")],
+    assumptions=COMMON_ASSUME,
+)
+
 NOT_YET = {}
 
 
